@@ -948,6 +948,7 @@ func Run(r *mc.Run) {
 	x.streamScenario(r)
 	x.tarHeaderScenario(r)
 	x.doubleDefectScenario(r)
+	x.fieldCaseScenario(r)
 	removeScratchDirs()
 
 	// ---- large inputs: long runs of one byte and very many members (a reader that does work per byte or per
